@@ -55,88 +55,183 @@ example : Batcher.fire (Batcher.run (Batcher.new 3 true) [.add (7 : Nat), .flush
 
 open Reorder
 
-/-- **one output per input, in input order, for every schedule**: whatever has been sent to `Output` is the fetch
-results of the first `drainedSeq` flushed batches, and the flushed batches, the batch held by a flusher inside its
-critical section and the current batch concatenate to exactly the items added -/
-theorem reorder_in_order {α ρ : Type} (f : List α → List ρ) (maxSize : Nat) (hasDelay : Bool) (bufferSize : Nat)
-    (as : List (Act α)) (r : Run α ρ)
-    (hrun : exec f true { st := init maxSize hasDelay bufferSize } as = some r) :
-    ∃ batches : List (List α),
-      batches.flatten ++ held r.st.pp ++ held r.st.tp ++ r.st.b.batch = inputs as ∧
-      r.out = ((batches.take r.st.drainedSeq).map f).flatten := by
-  obtain ⟨hist, h⟩ := reorder_invariant f as _ r [] (reorder_init_inv f maxSize hasDelay bufferSize) hrun
-  have hins := exec_ins f true as _ r hrun
-  refine ⟨hist, ?_, h.buf.out⟩
+/-- **one output per input, in input order, for every schedule, every fetch outcome and every consumer speed**:
+the reserved batches are numbered in reservation order; together with the batch held by a flusher inside its critical
+section and the current batch they concatenate to exactly the items added; and what the consumer has received,
+followed by the contents of the `Output` channel and what the draining goroutine still has to send, is exactly the
+fetch results of the first `drainedSeq` batches (a failed fetch contributing nothing) -/
+theorem reorder_in_order {α ρ : Type} (f : List α → List ρ) (fails : Nat → Bool) (maxSize : Nat) (hasDelay : Bool)
+    (bufferSize : Nat) (as : List (Act α)) (r : Run α ρ)
+    (hrun : exec f fails true { st := init maxSize hasDelay bufferSize } as = some r) :
+    ∃ batches : List (Nat × List α),
+      (∀ (k : Nat) (p : Nat × List α), batches[k]? = some p → p.1 = k) ∧
+      (batches.map Prod.snd).flatten ++ held r.st.pp ++ held r.st.tp ++ r.st.b.batch = inputs as ∧
+      r.out ++ r.st.outq ++ cur r.st.drainer = ((batches.take r.st.drainedSeq).map (resultOf f fails)).flatten := by
+  obtain ⟨hist, h⟩ := reorder_invariant f fails as _ r [] (reorder_init_inv f fails maxSize hasDelay bufferSize) hrun
+  have hins := exec_ins f fails true as _ r hrun
+  refine ⟨hist, h.buf.seqs, ?_, h.buf.out⟩
   rw [← h.ins, hins]; rfl
 
-/-- for a fetch function that answers item by item (as `KeyEventBatch` does) the output is always a prefix of
-the mapped input sequence: no result is lost, duplicated or out of order at any moment of any schedule -/
-theorem reorder_prefix {α ρ : Type} (g : α → ρ) (maxSize : Nat) (hasDelay : Bool) (bufferSize : Nat)
-    (as : List (Act α)) (r : Run α ρ)
-    (hrun : exec (List.map g) true { st := init maxSize hasDelay bufferSize } as = some r) :
-    ∃ rest, r.out ++ rest = (inputs as).map g := by
-  obtain ⟨bs, h1, h2⟩ := reorder_in_order (List.map g) maxSize hasDelay bufferSize as r hrun
-  refine ⟨(((bs.drop r.st.drainedSeq).map (List.map g)).flatten) ++ (held r.st.pp ++ held r.st.tp ++ r.st.b.batch).map g, ?_⟩
-  rw [h2, ← h1, ← List.append_assoc, ← List.flatten_append, ← List.map_append, List.take_append_drop]
-  simp [List.map_flatten]
+/-- the consumer-visible sequence is always a prefix of the results of the reserved batches in reservation order:
+nothing is duplicated, reordered or invented, however slowly `Output` is read and whichever fetches fail -/
+theorem reorder_prefix {α ρ : Type} (f : List α → List ρ) (fails : Nat → Bool) (maxSize : Nat) (hasDelay : Bool)
+    (bufferSize : Nat) (as : List (Act α)) (r : Run α ρ)
+    (hrun : exec f fails true { st := init maxSize hasDelay bufferSize } as = some r) :
+    ∃ (batches : List (Nat × List α)) (rest : List ρ),
+      (batches.map Prod.snd).flatten ++ held r.st.pp ++ held r.st.tp ++ r.st.b.batch = inputs as ∧
+      r.out ++ rest = (batches.map (resultOf f fails)).flatten := by
+  obtain ⟨bs, _, h1, h2⟩ := reorder_in_order f fails maxSize hasDelay bufferSize as r hrun
+  refine ⟨bs, r.st.outq ++ cur r.st.drainer ++ ((bs.drop r.st.drainedSeq).map (resultOf f fails)).flatten, h1, ?_⟩
+  rw [← List.append_assoc, ← List.append_assoc, h2, ← List.flatten_append, ← List.map_append, List.take_append_drop]
 
-/-- …and when everything has come to rest (flushers idle, batch empty, no fetch goroutine alive) every input
-has been emitted: exactly one result per input, in input order -/
-theorem reorder_complete {α ρ : Type} (g : α → ρ) (maxSize : Nat) (hasDelay : Bool) (bufferSize : Nat)
+/-- without fetch errors and with a fetch function that answers item by item (as `KeyEventBatch` does) the consumer
+sees a prefix of the mapped input sequence -/
+theorem reorder_prefix_no_errors {α ρ : Type} (g : α → ρ) (maxSize : Nat) (hasDelay : Bool) (bufferSize : Nat)
     (as : List (Act α)) (r : Run α ρ)
-    (hrun : exec (List.map g) true { st := init maxSize hasDelay bufferSize } as = some r)
-    (hq : quiescent r.st) : r.out = (inputs as).map g := by
-  obtain ⟨hist, h⟩ := reorder_invariant (List.map g) as _ r [] (reorder_init_inv _ maxSize hasDelay bufferSize) hrun
-  have hins := exec_ins (List.map g) true as _ r hrun
-  obtain ⟨q1, q2, q3, q4, q5⟩ := hq
+    (hrun : exec (List.map g) (fun _ => false) true { st := init maxSize hasDelay bufferSize } as = some r) :
+    ∃ rest, r.out ++ rest = (inputs as).map g := by
+  obtain ⟨bs, rest, h1, h2⟩ := reorder_prefix (List.map g) (fun _ => false) maxSize hasDelay bufferSize as r hrun
+  refine ⟨rest ++ (held r.st.pp ++ held r.st.tp ++ r.st.b.batch).map g, ?_⟩
+  have hG : resultOf (List.map g) (fun _ => false) = fun p => List.map g p.2 := by funext p; simp [resultOf]
+  rw [← List.append_assoc, h2, ← h1, hG]
+  simp [List.map_flatten, Function.comp_def]
+
+/-- **a failed fetch contributes no results but does not block or reorder later batches**: when everything has come
+to rest (flushers idle, batch empty, no fetch goroutine alive, `Output` read empty) the consumer has received exactly
+the results of all batches in order, the failed ones contributing nothing -/
+theorem reorder_complete {α ρ : Type} (f : List α → List ρ) (fails : Nat → Bool) (maxSize : Nat) (hasDelay : Bool)
+    (bufferSize : Nat) (as : List (Act α)) (r : Run α ρ)
+    (hrun : exec f fails true { st := init maxSize hasDelay bufferSize } as = some r)
+    (hq : quiescent r.st) :
+    ∃ batches : List (Nat × List α),
+      (batches.map Prod.snd).flatten = inputs as ∧ r.out = (batches.map (resultOf f fails)).flatten := by
+  obtain ⟨hist, h⟩ := reorder_invariant f fails as _ r [] (reorder_init_inv f fails maxSize hasDelay bufferSize) hrun
+  have hins := exec_ins f fails true as _ r hrun
+  obtain ⟨q1, q2, q3, q4, q5, q6⟩ := hq
   have hd : r.st.drainedSeq = r.st.nextSeq := by
     by_cases hlt : r.st.drainedSeq < r.st.nextSeq
     · rcases h.buf.cover _ (Nat.le_refl _) hlt with hc | ⟨e, he⟩
       · have := h.buf.live hc; omega
       · rw [q4] at he; simp at he
     · have := h.buf.dle; omega
+  have hdr : r.st.drainer = none := by
+    cases hdd : r.st.drainer with
+    | none => rfl
+    | some l => have := h.buf.dact (by simp [hdd]); omega
   have hp : held r.st.pp = [] := by cases hpp : r.st.pp <;> simp_all [held, Pc.isIdle]
   have ht : held r.st.tp = [] := by cases htp : r.st.tp <;> simp_all [held, Pc.isIdle]
   have hi := h.ins
   rw [hp, ht, q3, hins] at hi
-  have : inputs as = hist.flatten := by simpa [Run.ins] using hi
-  rw [h.buf.out, hd, ← h.buf.len, List.take_length, this]
-  simp [List.map_flatten]
+  refine ⟨hist, by simpa [Run.ins] using hi.symm, ?_⟩
+  have ho := h.buf.out
+  rw [q6, hdr, hd, ← h.buf.len, List.take_length] at ho
+  simpa [cur, curOf] using ho
 
-/-- the reorder buffer never holds more than `BufferSize` reserved slots, the two flushers are never both inside
-the critical section, and sequence numbers are handed out in flush order (`reserved = next − drained`) -/
-theorem reorder_capacity {α ρ : Type} (f : List α → List ρ) (maxSize : Nat) (hasDelay : Bool) (bufferSize : Nat)
+/-- …in particular without fetch errors: exactly one result per input, in input order -/
+theorem reorder_complete_no_errors {α ρ : Type} (g : α → ρ) (maxSize : Nat) (hasDelay : Bool) (bufferSize : Nat)
     (as : List (Act α)) (r : Run α ρ)
-    (hrun : exec f true { st := init maxSize hasDelay bufferSize } as = some r) :
-    r.st.reserved ≤ r.st.cap ∧ r.st.reserved = r.st.nextSeq - r.st.drainedSeq ∧
+    (hrun : exec (List.map g) (fun _ => false) true { st := init maxSize hasDelay bufferSize } as = some r)
+    (hq : quiescent r.st) : r.out = (inputs as).map g := by
+  obtain ⟨bs, h1, h2⟩ := reorder_complete (List.map g) (fun _ => false) maxSize hasDelay bufferSize as r hrun hq
+  have hG : resultOf (List.map g) (fun _ => false) = fun p => List.map g p.2 := by funext p; simp [resultOf]
+  rw [h2, ← h1, hG]
+  simp [List.map_flatten, Function.comp_def]
+
+/-- **no wedge**: while some reserved batch has not been dequeued by the drain yet, one of the fetcher's own
+goroutines or the consumer can take a step — whatever the fetch outcomes were. (A failed fetch still hands its
+sequence number to the buffer; if it did not, the drain would wait for it forever and `Reserve` would eventually
+block inside the critical section.) -/
+theorem reorder_progress {α ρ : Type} (f : List α → List ρ) (fails : Nat → Bool) (maxSize : Nat) (hasDelay : Bool)
+    (bufferSize : Nat) (as : List (Act α)) (r : Run α ρ)
+    (hrun : exec f fails true { st := init maxSize hasDelay bufferSize } as = some r)
+    (hpending : r.st.drainedSeq < r.st.nextSeq) :
+    ∃ a : Act α, (a = .drainStart ∨ a = .drainNext ∨ a = .send ∨ a = .recv ∨ a = .fetchErr r.st.drainedSeq ∨
+        a = .fetchDone r.st.drainedSeq) ∧
+      (step f fails true r.st a).isSome = true := by
+  obtain ⟨hist, h⟩ := reorder_invariant f fails as _ r [] (reorder_init_inv f fails maxSize hasDelay bufferSize) hrun
+  have hb := h.buf
+  cases hd : r.st.drainer with
+  | some l =>
+    have hpos := hb.dact (by simp [hd])
+    cases l with
+    | nil =>
+      refine ⟨.drainNext, by simp, ?_⟩
+      simp only [step, hd]
+      cases hi : r.st.items r.st.drainedSeq with
+      | some x =>
+        have : r.st.reserved = r.st.nextSeq - r.st.drainedSeq := hb.hres
+        cases hr : r.st.reserved with
+        | zero => omega
+        | succ n => simp
+      | none =>
+        cases hn : r.st.drainers with
+        | zero => omega
+        | succ n => simp
+    | cons x rest =>
+      by_cases hroom : r.st.outq.length < r.st.ocap
+      · exact ⟨.send, by simp, by simp [step, hd, hroom]⟩
+      · refine ⟨.recv, by simp, ?_⟩
+        simp only [step]
+        cases hq : r.st.outq with
+        | cons y q => simp
+        | nil =>
+          have : r.st.ocap = 0 := by simp [hq] at hroom; omega
+          simp [this, hd]
+  | none =>
+    rcases hb.cover _ (Nat.le_refl _) hpending with hc | ⟨e, he⟩
+    · have hpos := hb.live hc
+      refine ⟨.drainStart, by simp, ?_⟩
+      simp only [step, hd]
+      cases hn : r.st.drainers with
+      | zero => omega
+      | succ n => simp
+    · cases hl : lookupSeq r.st.drainedSeq r.st.inflight with
+      | none => exact absurd hl (mem_lookupSeq _ _ _ he)
+      | some evs =>
+        by_cases hg : (fails r.st.drainedSeq && !r.st.errored.contains r.st.drainedSeq) = true
+        · exact ⟨.fetchErr r.st.drainedSeq, by simp, by simp only [step, hl, hg]; rfl⟩
+        · exact ⟨.fetchDone r.st.drainedSeq, by simp, by simp only [step, hd, hl, hg]; rfl⟩
+
+/-- the reorder buffer never holds more than `BufferSize` reserved slots, `Output` never more than its capacity, the
+two flushers are never both inside the critical section, and sequence numbers are handed out in flush order -/
+theorem reorder_capacity {α ρ : Type} (f : List α → List ρ) (fails : Nat → Bool) (maxSize : Nat) (hasDelay : Bool)
+    (bufferSize : Nat) (as : List (Act α)) (r : Run α ρ)
+    (hrun : exec f fails true { st := init maxSize hasDelay bufferSize } as = some r) :
+    r.st.reserved ≤ r.st.cap ∧ r.st.reserved = r.st.nextSeq - r.st.drainedSeq ∧ r.st.outq.length ≤ r.st.ocap ∧
     ¬ (r.st.pp.holds = true ∧ r.st.tp.holds = true) := by
-  obtain ⟨hist, h⟩ := reorder_invariant f as _ r [] (reorder_init_inv f maxSize hasDelay bufferSize) hrun
-  exact ⟨h.buf.capb, h.buf.hres, h.mutex⟩
+  obtain ⟨hist, h⟩ := reorder_invariant f fails as _ r [] (reorder_init_inv f fails maxSize hasDelay bufferSize) hrun
+  exact ⟨h.buf.capb, h.buf.hres, h.buf.ocapb, h.mutex⟩
 
 /-- the schedule of the D17 witness: time-out flusher parked between `batcher.Flush` and `Reserve` -/
 def d17Schedule : List (Act Nat) :=
   [.pAdd 1, .pIsFull, .fire, .tmoRecv, .lock .tmo, .flushA .tmo,
    .pAdd 2, .pIsFull, .pAdd 3, .pIsFull, .lock .prod, .flushA .prod, .flushB .prod, .flushB .tmo,
-   .fetchDone 0, .drain, .fetchDone 1, .drain]
+   .fetchDone 0, .drainStart, .drainNext, .send, .send, .drainNext,
+   .fetchDone 1, .drainStart, .drainNext, .send, .drainNext, .recv, .recv, .recv]
 
 /-- regression witness: without `flushMu` (the code before the repair) this schedule swaps two batches … -/
 theorem d17_unrepaired_reorders :
-    (exec id false ({ st := init 2 true 4 } : Run Nat Nat) d17Schedule).map (·.out) = some [2, 3, 1] := by
+    (exec id (fun _ => false) false ({ st := init 2 true 4 } : Run Nat Nat) d17Schedule).map (·.out) = some [2, 3, 1] := by
   decide
 
 /-- … and with the mutex the producer's `lock` is simply not enabled at that point (non-vacuity of the
 mutual-exclusion argument: the schedule is rejected, not reordered) -/
 theorem d17_repaired_blocks :
-    (exec id true ({ st := init 2 true 4 } : Run Nat Nat) d17Schedule).map (·.out) = none := by
+    (exec id (fun _ => false) true ({ st := init 2 true 4 } : Run Nat Nat) d17Schedule).map (·.out) = none := by
   decide
 
-/-- non-vacuity: a complete run of the repaired model with out-of-order fetch completion ends quiescent with
-every input emitted in order -/
+/-- non-vacuity: a complete run of the repaired model with batch size 1, an unbuffered-as-given `Output` of capacity
+1, the fetch of the middle batch failing, fetches completing out of order and a slow consumer ends quiescent with the
+results of the other batches in order -/
 example :
-    (exec id true ({ st := init 2 true 4 } : Run Nat Nat)
-      [.pAdd 1, .pIsFull, .fire, .tmoRecv, .lock .tmo, .flushA .tmo, .pAdd 2, .pIsFull, .pAdd 3, .pIsFull,
-       .flushB .tmo, .lock .prod, .flushA .prod, .flushB .prod, .fetchDone 1, .drain, .fetchDone 0, .drain]).map
-        (fun r => (r.out, r.st.inflight.length, r.st.drainers, r.st.b.batch)) = some ([1, 2, 3], 0, 0, []) := by
+    (exec id (fun q => q == 1) true ({ st := init 1 true 1 } : Run Nat Nat)
+      [.pAdd 1, .pIsFull, .lock .prod, .flushA .prod, .flushB .prod,
+       .pAdd 2, .pIsFull, .fire, .tmoRecv, .fetchDone 0, .drainStart, .drainNext, .send, .drainNext,
+       .lock .tmo, .flushA .tmo, .flushB .tmo, .lock .prod, .flushA .prod, .flushB .prod, .recv,
+       .fetchErr 1, .fetchDone 1, .drainStart, .drainNext, .drainNext,
+       .pAdd 3, .pIsFull, .lock .prod, .flushA .prod, .flushB .prod, .fetchDone 2, .drainStart, .drainNext, .send,
+       .drainNext, .recv]).map
+        (fun r => (r.out, r.st.inflight.length, r.st.drainers, r.st.b.batch, r.st.errs)) = some ([1, 3], 0, 0, [], 1) := by
   decide
 
 end Rxn.C20
